@@ -282,7 +282,8 @@ Variable req_dec : bytes -> ReqT.
 Variable req_nil : ReqT.
 
 (* ---- totality from the bytes: wire model composed with the conversion model; PPanic = nil dereference,
-   PFuel = the model's fuel ran out (excluded) ---- *)
+   PFuel = the model's fuel ran out (excluded); a value is a usable object: UnMarshalBlockHeader/UnMarshalBlock
+   never return a nil header without an error (/repo 15a1dce) ---- *)
 Theorem C09_UnMarshalTransaction_total : forall b,
   UnMarshalTransaction SubT sub_dec sub_nil b <> PPanic /\ UnMarshalTransaction SubT sub_dec sub_nil b <> PFuel.
 Proof. exact (UnMarshalTransaction_total SubT sub_dec sub_nil). Qed.
@@ -307,12 +308,12 @@ Proof. exact (tx_bytes_roundtrip SubT sub_enc sub_dec sub_nil). Qed.
    it -- BlockHeader.GenHash -- is the same before storing/relaying and after loading/receiving *)
 Theorem C09_header_bytes_roundtrip : forall h, hdr_wf ReqT req_enc req_dec h ->
   (forall p, hdr_to_pb ReqT req_enc h = Some p -> pb_hdr_ok p) ->
-  exists b, MarshalBlockHeader ReqT req_enc h = Some b /\ UnMarshalBlockHeader ReqT req_dec req_nil b = PVal (Some h).
+  exists b, MarshalBlockHeader ReqT req_enc h = Some b /\ UnMarshalBlockHeader ReqT req_dec req_nil b = PVal h.
 Proof. exact (hdr_bytes_roundtrip ReqT req_enc req_dec req_nil). Qed.
 
 Theorem C09_hash_stable_bytes : forall (X : Type) (gen_hash : hdr ReqT -> X) h, hdr_wf ReqT req_enc req_dec h ->
   (forall p, hdr_to_pb ReqT req_enc h = Some p -> pb_hdr_ok p) ->
-  exists b h', MarshalBlockHeader ReqT req_enc h = Some b /\ UnMarshalBlockHeader ReqT req_dec req_nil b = PVal (Some h') /\
+  exists b h', MarshalBlockHeader ReqT req_enc h = Some b /\ UnMarshalBlockHeader ReqT req_dec req_nil b = PVal h' /\
                gen_hash h' = gen_hash h.
 Proof.
   intros X f h W O. destruct (hdr_bytes_roundtrip ReqT req_enc req_dec req_nil h W O) as (b & A & B). exists b, h. auto.
